@@ -389,6 +389,22 @@ Definition step_C19 (pd : digest) (o : op) (ob : obs) (dg : digest) : bool :=
          | None => true end
        else true) pd.(g_sessions).
 
+(* "messages addressed to it reach its internal client with the recipient rewritten to the client's own
+   identifier": a message / control message whose recipient is the public id of a live virtual session is
+   judged by the reference routing (route_spec: one copy, on the connection of the internal client the
+   session belongs to, true sender, recipient = the chosen id; nothing for a sender of another backend or
+   a control message of a sender without the permission; nobody else gets a copy) - whoever the sender
+   is: the owning internal client, another internal client, an ordinary session.  Evaluated in the
+   quiescent semantics (as C05's clause), see check_step. *)
+Definition to_virtual (pd : digest) (o : op) : bool :=
+  match o with
+  | OMsg _ (RSession (IdPub n)) _ | OCtl _ (RSession (IdPub n)) _ =>
+      match find_sd pd n with Some t => is_virtual_d t | None => false end
+  | _ => false
+  end.
+Definition step_C19_msg (pd : digest) (o : op) (ob : obs) : bool :=
+  negb (to_virtual pd o) || step_C05 pd o ob.
+
 (* ------------------------------------------------------------------ stateful clauses: observers (C04) and resume (C06) *)
 Record pstate := mkps {
   ps_prev : digest;
@@ -817,7 +833,8 @@ Definition check_step (which : N) (cfg : pcfg) (last : bool) (ps : pstate) (o : 
   | 9 => if digest_C09 dg then 0 else 1
   | 19 => if negb (digest_C19 dg) then 1 else if negb (step_C19 pd o ob dg) then 2
           else if cfg.(pc_quiescent) && negb (part_ok ps.(ps_virt) pd dg o ob) then 3
-          else if cfg.(pc_quiescent) && negb (virtuals_seen_b ps.(ps_broken) dg views) then 4 else 0
+          else if cfg.(pc_quiescent) && negb (virtuals_seen_b ps.(ps_broken) dg views) then 4
+          else if cfg.(pc_quiescent) && negb (step_C19_msg pd o ob) then 5 else 0
   | 14 => step_C14 cfg.(pc_quiescent) ps.(ps_broken) pd (update_tviews pd dg ob ps.(ps_tdata)) o ob dg
   | _ => 0
   end.
